@@ -42,3 +42,13 @@ theorem conv64_bytes (a b c d e f g h : BitVec 8) :
   simp only [conv64]; bv_decide
 
 end ElfioVerif
+
+namespace ElfioVerif
+/-- flag tests of the membership rule: `(flags & F) == F` for a single-bit `F` is a bit test -/
+theorem and_eq_bit1 (x : BitVec 64) : ((x &&& 2#64) == 2#64) = x.getLsbD 1 := by
+  bv_decide
+theorem and_eq_bit10 (x : BitVec 64) : ((x &&& 1024#64) == 1024#64) = x.getLsbD 10 := by
+  bv_decide
+theorem and_ne_bit10 (x : BitVec 64) : ((x &&& 1024#64) != 1024#64) = !x.getLsbD 10 := by
+  bv_decide
+end ElfioVerif
